@@ -108,6 +108,106 @@ type Program struct {
 	// UseResult: the result is itself used as an operand of further calls (reshaping, reducing,
 	// arithmetic; their results are dropped) before results and operands are read back
 	UseResult bool `json:"use_result,omitempty"`
+	// RejectFirst: before each node's call, a call of the same operation on the same operand
+	// objects with an invalid argument (a dim beyond the rank, an element count that does not
+	// fit, a partner of an incompatible shape, a reversed range) is made; it must not disturb
+	// the valid call that follows (whether it is rejected is C09's subject, not checked here)
+	RejectFirst bool `json:"reject_first,omitempty"`
+	// NoOpBP: before the nodes are built, BackPropagate is called on every untracked leaf (from an
+	// untracked root it changes nothing) and Gradient() of every leaf is read
+	NoOpBP bool `json:"noop_bp,omitempty"`
+}
+
+// InvalidCall makes calls of n's operation that violate the operation's precondition - with
+// the checked call's own operand objects in them - and drops whatever they return.
+func InvalidCall(n Node, in []tensor.Tensor) {
+	defer func() { _ = recover() }()
+	a := in[0]
+	sa := a.Shape()
+	rank := len(sa)
+	junkLike := func(shape []int) tensor.Tensor {
+		j, err := lib.New(shape, make([]float64, ref.Prod(shape)), false)
+		if err != nil {
+			return nil
+		}
+		return j
+	}
+	bad := n
+	switch {
+	case IsAlong(n.Op) || n.Op == "squeeze" || n.Op == "unsqueeze" || n.Op == "flatten":
+		bad.I = rank + 2
+		if n.I%2 == 1 {
+			bad.I = -1
+		}
+	case n.Op == "concat":
+		bad.I = rank + 1
+		_, _ = ApplyLib(bad, in, nil)
+		if rank >= 2 && n.I >= 0 && n.I < rank {
+			// a partner that differs along the concat dimension AND along another one, listed first
+			js := append([]int{}, sa...)
+			js[n.I]++
+			js[(n.I+1)%rank] += 2
+			if j := junkLike(js); j != nil {
+				_, _ = ApplyLib(n, append([]tensor.Tensor{j}, in...), nil)
+			}
+		}
+		return
+	case n.Op == "reshape":
+		bad.S = []int{a.NElems() + 1}
+	case n.Op == "broadcast":
+		bad.S = append(append([]int{}, sa...), 3)
+		if rank > 0 {
+			bad.S = append([]int{}, sa...)
+			bad.S[rank-1] += 2
+		}
+	case n.Op == "slice" || n.Op == "patch":
+		bad.R = []ref.Range{{From: 5, To: 2}}
+		if rank == 0 {
+			bad.R = []ref.Range{{From: 0, To: 1}}
+		}
+	case len(in) == 2:
+		// partners that fit nothing; partners into which the operand could be expanded but which
+		// cannot be expanded themselves (one of the operand's dims >= 3 replaced by 2); each with
+		// the checked operands in either role
+		var junks []tensor.Tensor
+		if j := junkLike([]int{2, 97, 3}); j != nil {
+			junks = append(junks, j)
+		}
+		for _, x := range in {
+			sx := x.Shape()
+			for k, d := range sx {
+				if d >= 3 {
+					js := append([]int{}, sx...)
+					js[k] = 2
+					if j := junkLike(js); j != nil {
+						junks = append(junks, j)
+					}
+					break
+				}
+			}
+			if len(sx) >= 3 {
+				// same rank, a batch dimension that is neither 1 nor the operand's
+				js := append([]int{}, sx...)
+				js[0] = sx[0] + 1
+				if j := junkLike(js); j != nil {
+					junks = append(junks, j)
+				}
+			}
+		}
+		for _, j := range junks {
+			_, _ = ApplyLib(n, []tensor.Tensor{a, j}, nil)
+			_, _ = ApplyLib(n, []tensor.Tensor{j, in[1]}, nil)
+			_, _ = ApplyLib(n, []tensor.Tensor{in[1], j}, nil)
+			_, _ = ApplyLib(n, []tensor.Tensor{j, a}, nil)
+		}
+		_, _ = ApplyLib(n, []tensor.Tensor{a, nil}, nil)
+		return
+	case n.Op == "transpose":
+		return
+	default:
+		return // unary element-wise operations accept every tensor
+	}
+	_, _ = ApplyLib(bad, in, nil)
 }
 
 // Disturbance runs p once more on junk values (and back-propagates its last value if bp).
@@ -370,10 +470,23 @@ func runLib(p Program, reuse []tensor.Tensor) ([]tensor.Tensor, []tensor.Tensor,
 		}
 		vals = append(vals, x)
 	}
+	if p.NoOpBP {
+		for i, l := range p.Leaves {
+			if !l.Tracked {
+				if err := tensor.BackPropagate(vals[i]); err != nil {
+					return nil, nil, fmt.Errorf("BackPropagate from untracked leaf %d returned an error: %w", i, err)
+				}
+			}
+			_ = vals[i].Gradient()
+		}
+	}
 	for i, n := range p.Nodes {
 		in := make([]tensor.Tensor, len(n.In))
 		for k, o := range n.In {
 			in[k] = vals[o]
+		}
+		if p.RejectFirst {
+			InvalidCall(n, in)
 		}
 		var first tensor.Tensor
 		if n.Twice {
